@@ -414,6 +414,102 @@ func runDB(args []string, in *bufio.Scanner, out *bufio.Writer) {
 					es = append(es, e)
 				}
 				return "ok:" + strings.Join(es, ";")
+			case "wsetv":
+				// like wset, with the tuples of the records decoded: "I p.s row" | "D p.s row" | "U p.s p.s oldrow newrow"
+				txn := s.txns[rest]
+				if txn == nil {
+					return "err:notxn"
+				}
+				var es []string
+				for _, w := range txn.VerifWriteSet() {
+					tm := s.db.GetCatalogForTesting().GetTableByOID(w.OID)
+					row := func(b []byte) string {
+						if b == nil || tm == nil {
+							return "-"
+						}
+						t := tuple.NewTuple(&page.RID{}, uint32(len(b)), b)
+						var vs []string
+						for c := uint32(0); c < tm.Schema().GetColumnCount(); c++ {
+							v := t.GetValue(tm.Schema(), c)
+							vs = append(vs, fmtVal(&v))
+						}
+						return strings.Join(vs, ",")
+					}
+					e := fmt.Sprintf("%s %d.%d", []string{"I", "D", "U"}[w.Kind], w.RID1.PageID, w.RID1.SlotNum)
+					if w.Kind == 2 {
+						if w.HasR2 {
+							e += fmt.Sprintf(" %d.%d", w.RID2.PageID, w.RID2.SlotNum)
+						} else {
+							e += " -"
+						}
+						e += " " + row(w.Tuple1) + " " + row(w.Tuple2)
+					} else {
+						e += " " + row(w.Tuple1)
+					}
+					es = append(es, e)
+				}
+				return "ok:" + strings.Join(es, ";")
+			case "heap":
+				// every occupied slot of the table's pages in page-chain order, read straight from the page bytes
+				// (no transaction, no locks): "p.s=row" and "p.s=row*" for a delete-marked slot; free slots are not listed
+				tm := s.table(rest)
+				if tm == nil {
+					return "err:notable"
+				}
+				bpm := s.db.GetSamehadaInstance().GetBufferPoolManager()
+				sc := tm.Schema()
+				var rows []string
+				for pid := tm.Table().GetFirstPageID(); pid.IsValid(); {
+					pg := access.CastPageAsTablePage(bpm.FetchPage(pid))
+					if pg == nil {
+						return "err:nopage"
+					}
+					pg.RLatch()
+					for sl := uint32(0); sl < pg.GetTupleCount(); sl++ {
+						size := pg.GetTupleSize(sl)
+						if size == 0 {
+							continue
+						}
+						mark := ""
+						if size&(1<<31) != 0 {
+							mark = "*"
+							size &^= 1 << 31
+						}
+						off := pg.GetTupleOffsetAtSlot(sl)
+						data := append([]byte{}, pg.Data()[off:off+size]...)
+						t := tuple.NewTuple(&page.RID{}, size, data)
+						var vs []string
+						for c := uint32(0); c < sc.GetColumnCount(); c++ {
+							v := t.GetValue(sc, c)
+							vs = append(vs, fmtVal(&v))
+						}
+						rows = append(rows, fmt.Sprintf("%d.%d=%s%s", pid, sl, strings.Join(vs, ","), mark))
+					}
+					next := pg.GetNextPageID()
+					pg.RUnlatch()
+					bpm.UnpinPage(pid, false)
+					pid = next
+				}
+				return "ok:" + strings.Join(rows, ";")
+			case "locks":
+				// the two lock tables: "S p.s t,t" (holders in table order) and "X p.s t", sorted
+				sh, ex := s.db.GetSamehadaInstance().GetLockManager().VerifLockTables()
+				var es []string
+				for rid, ts := range sh {
+					if len(ts) == 0 {
+						continue
+					}
+					var ids []string
+					for _, t := range ts {
+						ids = append(ids, fmt.Sprint(int(t)))
+					}
+					es = append(es, fmt.Sprintf("S %d.%d %s", rid.PageID, rid.SlotNum, strings.Join(ids, ",")))
+				}
+				for rid, t := range ex {
+					es = append(es, fmt.Sprintf("X %d.%d %d", rid.PageID, rid.SlotNum, int(t)))
+				}
+				sort.Strings(es)
+				return "ok:" + strings.Join(es, ";")
 			case "tables":
 				var ts []string
 				for _, tm := range s.db.GetCatalogForTesting().GetAllTables() {
